@@ -171,6 +171,12 @@ def level2_library(name, lang, cfi, debug=False):
     fs += [F("cic", "int", [P("s", "cstr_in"), P("c", "val", "char")]),
            F("cioc", "void", [n_(), P("cap", "val", "int", role="cap"), P("s", "cstr_inout"), P("c", "val", "char")]),
            F("coc", "void", [n_(), P("s", "cstr_out", charlen=12), P("c", "val", "char")])]
+    # a function pointer argument after / before the string argument (callbacks.rst): the string rules still apply
+    fs += [F("cifn", "int", [P("s", "cstr_in"), P("fn", "fnptr")]),
+           F("fnci", "int", [P("fn", "fnptr"), P("s", "cstr_in")]),
+           F("ciofn", "void", [n_(), P("cap", "val", "int", role="cap"), P("s", "cstr_inout"), P("fn", "fnptr")])]
+    if lang == "c++":
+        fs += [F("xifn", "int", [P("s", "str_cref"), P("fn", "fnptr")])]
     # intent values written in upper case
     fs += [F("uci", "int", [P("s", "cstr_in", upper=True)]),
            F("uso", "void", [n_(), P("s", "cstr_out", charlen=12, upper=True)]),
